@@ -37,6 +37,8 @@ RULE = (
     " Blocks are left by an ordinary exception, a BaseException subclass and asyncio.Cancelle"
     "dError in turn; \"reboot\" steps make the next authenticated request go out twice (report,"
     " re-send), both under the current settings."
+    " Step \"prepared\": two reconfigure() objects created up front, a permanent configure(), t"
+    "hen both entered nested."
 )
 ASSUMPTIONS = [
     "a configure() inside a reconfigure() block is undone when the block exits (the block restores the snapshot taken at entry)",
